@@ -118,6 +118,40 @@ func regPrelude(pkg string) {
 		}
 		return nil
 	})
+	simple(p+"vGobFields", func(s *State, a []Value) Value {
+		// exported field names and types of the struct behind a pointer: what gob matches by
+		iv := a[0].(IfaceV)
+		t := iv.T
+		if pt, ok := t.Underlying().(*types.Pointer); ok {
+			t = pt.Elem()
+		}
+		st, ok := t.Underlying().(*types.Struct)
+		if !ok {
+			return StrV("")
+		}
+		out := ""
+		for i := 0; i < st.NumFields(); i++ {
+			f := st.Field(i)
+			if f.Exported() {
+				out += f.Name() + " " + f.Type().String() + ";"
+			}
+		}
+		return StrV(out)
+	})
+	simple(p+"vLookup32", func(s *State, a []Value) Value {
+		// table[idx] for a symbolic 8-bit index as an ite chain (no forking)
+		t := a[0].(SliceV)
+		cells := s.sliceCells(t)
+		idx := s.asExpr(a[1])
+		if len(cells) != 256 || idx.W != 8 {
+			panic(engineErr("vLookup32: need 256 entries and a byte index"))
+		}
+		res := cells[255].(*Expr)
+		for i := 254; i >= 0; i-- {
+			res = Ite(Eq(idx, Const(8, uint64(i))), cells[i].(*Expr), res)
+		}
+		return res
+	})
 	simple(p+"vAssume", func(s *State, a []Value) Value {
 		s.assume(s.asExpr(a[0]))
 		return nil
